@@ -174,7 +174,13 @@ fn program_layout(p: &Program, name: &str, cells: &[Ptr<Cell>], shift: P) -> Lay
         }
     }
     let mut top = Layout::new(name, 0, Outline::rect(100_000, 100_000).unwrap());
+    let referenced: Vec<bool> = (0..p.insts.len()).map(|i| p.insts.iter().any(|m| m.rel.as_ref().map(|r| r.to == i).unwrap_or(false))).collect();
     for (k, &i) in p.listing.iter().enumerate() {
+        // an absolutely placed instance that others are placed against need not be listed at all: it is
+        // reached through the relation and belongs to the placed cell all the same (one such root in five)
+        if p.insts[i].rel.is_none() && referenced[i] && (k + 2 * p.insts.len()) % 5 == 4 {
+            continue;
+        }
         // every fourth instance is handed over through the layout's list of placeable objects
         if (k + p.insts.len()) % 4 == 3 {
             top.places.push(Placeable::Instance(insts[i].clone()));
